@@ -351,7 +351,7 @@ pub fn run(tier: &str) -> i32 {
             acc.choice_points += pts;
         }
 
-        // (l) every string of 0..=5 symbols over {A, _, =, +} (a data symbol, the last symbol of the URL-safe
+        // (l) every string of 0..=5 (thorough: 0..=7) symbols over {A, _, =, +} (a data symbol, the last symbol of the URL-safe
         //     alphabet, the padding symbol, a symbol of the other alphabet) as the payload segment after the right
         //     header - alone and followed by four footer-segment forms - and as the footer segment after a payload
         //     of the right shape: every small shape of padding and of symbols a decoder has to size, count or strip
@@ -359,7 +359,7 @@ pub fn run(tier: &str) -> i32 {
             let sym = ['A', '_', '=', '+'];
             let mut shapes: Vec<String> = vec![String::new()];
             let mut from = 0;
-            for _ in 0..5 {
+            for _ in 0..(if quick { 5 } else { 7 }) {
                 let upto = shapes.len();
                 for i in from..upto {
                     for ch in sym {
@@ -630,7 +630,7 @@ pub fn run(tier: &str) -> i32 {
         crate::report::machinery_error("C09: no input at all was accepted (the full-length prefixes and right-length hex keys must be): vacuous");
     }
     let extra = json!({
-        "space": "24 entry points x {8 headers + every decoded length 0..=400 x 3 fillings x 4 footer-segment forms x 2 expected footers; every prefix of an authentic token; a 2/3/4-byte character replacing / inserted at every position of an authentic token; all strings of 0..=N segments over a 7-element segment alphabet; every string of 0..=5 symbols over {A, _, =, +} as payload segment (x 5 footer-segment forms) and as footer segment; hostile strings incl. 1 MiB; authentic tokens with hostile payloads}; Key::<N>::try_from for N in {24,32,48,49,64} x every hex length 0..=200",
+        "space": "24 entry points x {8 headers + every decoded length 0..=400 x 3 fillings x 4 footer-segment forms x 2 expected footers; every prefix of an authentic token; a 2/3/4-byte character replacing / inserted at every position of an authentic token; all strings of 0..=N segments over a 7-element segment alphabet; every string of 0..=5 (thorough: 0..=7) symbols over {A, _, =, +} as payload segment (x 5 footer-segment forms) and as footer segment; hostile strings incl. 1 MiB; authentic tokens with hostile payloads}; Key::<N>::try_from for N in {24,32,48,49,64} x every hex length 0..=200",
         "max_segments": if quick { 5 } else { 6 },
         "distinct_rule": "distinct (entry point, input, expected footer, assertion)",
         "caps_hit": [],
